@@ -104,6 +104,13 @@ Definition gcase_diag (c : gcase) : list bool :=
     match gc_fdata_re c with [] => true | t =>
       vec_ok (gc_tol c) (length (gc_projv_re c)) (project_vectorized nel dim (gc_rule c) intel Sp ev (fdata_of t))
              (gc_projv_re c) end;
+    (* hypothesis of C13_vectorized_projection_is_scalar_projection on the library's table: the entry at (position of e,
+       number of q) is the value of the callable at quadrature point q of element e *)
+    match gc_fdata_re c with [] => true | t =>
+      forallb (fun pe => let '(pos, e) := pe in
+        forallb (fun kq => let '(k, q) := kq in
+          forallb (fun d => dclose (gc_tol c) (fdata_of t pos k d) (gf_f c e (fst q) d)) (seq 0 dim))
+          (enumerate (gc_rule c))) (enumerate (support_elements nel Sp)) end;
     match gc_fdata_im c with [] => true | t =>
       vec_ok (gc_tol c) (length (gc_projv_im c)) (project_vectorized nel dim (gc_rule c) intel Sp ev (fdata_of t))
              (gc_projv_im c) end ].
